@@ -106,7 +106,8 @@ def run_free(hbin, runner, header, n, seed):
     rc, gen = sh("%s genfree %d %d" % (runner, n, seed), stdin=("\n".join(header) + "\n").encode(), timeout=300)
     cases = [l for l in gen.split("\n") if l and not (l.startswith("MODE\t") or l.startswith("CFG\t"))]
     # continue issued before the pending event was received, several hits to come (nothing may be lost)
-    cases = ["ident\t1\t2\tR,K,S,V,V,K,S,V", "builtin\t1\t1\tR,K,S,V,S,V,K,S,V,K,V", "ident\t1\t0,1,2,3\tR,K,K,S,V,S,V,S,V"] + cases
+    # Z = the controller thinks for 6.5 s after a stop: the parse must stay stopped (nothing is delivered without a continue)
+    cases = ["ident\t1\t2\tR,V,Z,V,K,V", "ident\t1\t2\tR,K,S,V,V,K,S,V", "builtin\t1\t1\tR,K,S,V,S,V,K,S,V,K,V", "ident\t1\t0,1,2,3\tR,K,K,S,V,S,V,S,V"] + cases
     d = os.path.join(BUILD, "c17.d")
     os.makedirs(d, exist_ok=True)
 
